@@ -18,10 +18,11 @@ UDT_BASE = {FLAG: BOOL, COUNT: INT}
 
 CLASSES = {
     'A': [('Id', 'unique_id'), ('N', INT), ('S', STR), ('F', BOOL), ('Next_Id', None), ('Hue', ENUM), ('G', FLAG)],
-    'B': [('Id', 'unique_id'), ('A_Id', None), ('N', INT), ('S', STR)],
+    # (an attribute called length: the word also names the size of an array)
+    'B': [('Id', 'unique_id'), ('A_Id', None), ('N', INT), ('S', STR), ('length', INT)],
     'C': [('Id', 'unique_id'), ('A_Id', None), ('F', BOOL), ('N', INT)],
     'L': [('A_Id', None), ('B_Id', None), ('W', INT)],
-    'D': [('Id', 'unique_id'), ('S', STR), ('K', INT), ('X', REAL), ('Cnt', COUNT)],
+    'D': [('Id', 'unique_id'), ('S', STR), ('K', INT), ('X', REAL), ('Cnt', COUNT), ('length', INT)],
     # refers to the identifier of L, which consists of referential attributes itself (a key chain)
     'M': [('Id', 'unique_id'), ('L_A_Id', None), ('L_B_Id', None), ('N', INT)],
 }
